@@ -7,7 +7,8 @@ parent (MC_Views) -- and the Resizer state machine: every call ends in Ok or a d
 Conformance: (A) the coefficient windows of the real resizer for a lattice + seeded geometries (TraceCoeffs, windows only, no pixel
 data); (B) boundary inputs executed with source and destination flush against PROT_NONE guard pages, on the optimised build and on
 the debug-assertion build (slice / pointer precondition checks, overflow checks): sizes 0 and 1, crops flush / sub-pixel / denormal /
-one ulp inside the edge / negative / NaN / infinite, oversized and exact buffers, strided views, every algorithm, reused resizers,
+one ulp inside the edge / negative / NaN / infinite, oversized and exact buffers, strided views, every algorithm, reused resizers
+(random histories and scratch buffers that grow a little with every call),
 custom kernels; a panic, abort or signal is data that TLC rejects; (C) custom kernels with large weights on the portable
 8-bit path with adversarial contents: the range of indices really used for the clip table (hook) must stay inside the table."""
 import random, struct, json, os
@@ -140,6 +141,17 @@ def gen_boundary(tier, rng):
         c["_spec"]["rz"] = 900 + k % 3
         c["_spec"]["chk"] = [x for x in c["_spec"]["chk"] if x != "pipeline"]
         cases.append(c)
+    # 6. one resizer whose scratch buffers grow a little with every call (spare capacity after an amortised doubling), shrink and
+    #    grow again: every slice of a temporary image must lie inside the initialised part of its buffer
+    from props.c09 import growth_histories
+    for hnum, calls in enumerate(growth_histories(tier)):
+        cases.append(rz.ctl_case(1000 + hnum, "new"))
+        for kw in calls:
+            n += 1
+            cases.append(rz.resize_case(kw["pt"], kw["sw"], kw["sh"], kw["dw"], kw["dh"], alg=kw["alg"], flt=kw["flt"], m=kw["m"], alpha=True,
+                                        cpu=rz.pick(hnum, 411, rz.CPUS), rz=1000 + hnum, src_c={"g": "rand", "seed": n, "flo": 0.0, "fhi": 1.0},
+                                        src_lay={"k": "image_ref", "guard": 1}, dst_lay={"k": "slice", "guard": 1}, log=("digest",),
+                                        chk=("no_panic", "outside", "srcsame")))
     return cases
 
 
